@@ -98,10 +98,35 @@ def chain_execute(case):
             LOG.append(1)
     RecStep.__name__ = RecStep.__qualname__ = "Elem1"
 
+    # element classes may share a parent class of their own kind that is used as a (bare)
+    # template itself: templates of a class are templates of THAT class
+    parents = {}
+    for kind_ in (Pool, Controller, PoolDecorator):
+        if kind_ is Pool:
+            class Parent(Pool):
+                supply = demand = utilisation = allocation = 0
+                pos = 0
+
+                def __init__(self, *args, **kwargs):
+                    self.args, self.kwargs, self.target = args, kwargs, None
+        else:
+            class Parent(kind_):
+                pos = 0
+
+                def __init__(self, target, *args, _kind=kind_, **kwargs):
+                    _kind.__init__(self, target)
+                    self.args, self.kwargs = args, kwargs
+        Parent.__name__ = Parent.__qualname__ = "Parent" + kind_.__name__
+        parents[kind_] = Parent
+        if rnd.random() < 0.6:
+            Parent.s()
+
     def make(i):
         base = Pool if i == n else (Controller if (i == 1 and rnd.random() < 0.5) else PoolDecorator)
-        if base is Pool:
-            class Rec(Pool):
+        if rnd.random() < 0.5:
+            base = parents[base]
+        if base is Pool or base is parents[Pool]:
+            class Rec(base):
                 supply = demand = utilisation = allocation = 0
 
                 def __init__(self, *args, **kwargs):
@@ -134,6 +159,8 @@ def chain_execute(case):
         control = stepwise_mod.stepwise(rule(0))
         added = []
         for j in range(rnd.randrange(0, 3)):
+            if rnd.random() < 0.5:
+                control.s()   # a template taken while rules are still being registered
             added.append((10.0 * (j + 1), rule(j + 1)))
             if rnd.random() < 0.5:
                 control.add(added[-1][1], supply=added[-1][0])
